@@ -37,20 +37,31 @@ var constKinds = []constKind{
 var c19HugeKinds = []constKind{
 	{"arr-huge", "[0] * 300000", "[9]", ""},
 	{"arr-huge-mixed", `[1, "a", 2.5] * 8000`, "[9]", ""},
+	{"huge-map", c19HugeMapLit(), "{0: 9}", ""}, // (keys 0..3999: the attempts address it like an array, K[0])
 }
 
-const c19HugeObs = "println([K[0], K[1], K[-1], len(K)])"
+func c19HugeMapLit() string {
+	var ps []string
+	for i := 0; i < 4000; i++ {
+		ps = append(ps, fmt.Sprintf("%d:%d", i, i+1))
+	}
+	return "{" + strings.Join(ps, ",") + "}"
+}
+
+const c19HugeObs = "println([K[0], K[1], K[2], K[-1], K[3999], len(K)])"
+
+func c19IsHuge(ck constKind) bool { return strings.Contains(ck.name, "huge") }
 
 // c19BodyExpr is what a body run by an attempt prints for the constant: the constant, for a huge array what c19HugeObs shows.
 func c19BodyExpr(ck constKind) string {
-	if strings.HasPrefix(ck.name, "arr-huge") {
-		return `(if type(K) == "ARRAY" {[K[0], K[1], K[-1], len(K)]} else {K})`
+	if c19IsHuge(ck) {
+		return `(if type(K) == "ARRAY" || type(K) == "MAP" {[K[0], K[1], K[2], K[-1], K[3999], len(K)]} else {K})`
 	}
 	return "K"
 }
 
 func c19ObsOf(ck constKind) string {
-	if strings.HasPrefix(ck.name, "arr-huge") {
+	if c19IsHuge(ck) {
 		return c19HugeObs
 	}
 	return "println(K)"
@@ -284,17 +295,24 @@ func checkC19(c *Ctx) {
 		return fmt.Sprintf("CONSTANTS\n MaxOps = %d\n MaxTightOps = %d\n WriteBeforeCheck = %s\n RegisterShadows = %s\n CheckWalksCallStack = %s\n FailureLeavesFrame = %s\n InPlaceWhenNoRoom = %s\n EmitOn = %s\nINIT Init\nNEXT Next\nINVARIANT ConstantsStable\n",
 			maxOps, c.Pick(1, 2), b(dev == 0), b(dev == 1), b(dev == 2), b(dev == 3), b(dev == 4), b(emit))
 	}
+	// design level: each named deviation breaks ConstantsStable (the runs are JVMs of their own, awaited at the end)
+	devDone := make(chan error, 5)
 	for dev := 0; dev < 5; dev++ {
-		r, err := c.TLC(TLCOpt{Spec: "Constants", Cfg: cfg(2, dev, false), Workers: 2, AllowError: true})
-		if err != nil {
-			c.Infra(err)
-			return
-		}
-		if r.InvViolated != "ConstantsStable" {
-			c.Infra(fmt.Errorf("Constants.tla with deviation %d did not violate ConstantsStable (vacuous model): %s", dev, r.ErrText))
-			return
-		}
+		go func(dev int) {
+			r, err := c.TLC(TLCOpt{Spec: "Constants", Cfg: cfg(2, dev, false), Workers: 1, AllowError: true})
+			if err == nil && r.InvViolated != "ConstantsStable" {
+				err = fmt.Errorf("Constants.tla with deviation %d did not violate ConstantsStable (vacuous model): %s", dev, r.ErrText)
+			}
+			devDone <- err
+		}(dev)
 	}
+	defer func() {
+		for dev := 0; dev < 5; dev++ {
+			if err := <-devDone; err != nil {
+				c.Infra(err)
+			}
+		}
+	}()
 	c.Cov("design_counterexamples", "WriteBeforeCheck=TRUE, RegisterShadows=TRUE, CheckWalksCallStack=TRUE, FailureLeavesFrame=TRUE and InPlaceWhenNoRoom=TRUE each violate ConstantsStable")
 	if err := failCalibrate(); err != nil {
 		c.Infra(err)
@@ -308,14 +326,45 @@ func checkC19(c *Ctx) {
 	seen := map[string]bool{}
 	n := 0
 	errFlags := map[string][]bool{} // history key + kind -> error flags of attempts (small vs large comparison)
+	type genLine struct {
+		H    [][2]string `json:"h"`
+		Home string      `json:"home"`
+		Mem  string      `json:"mem"`
+	}
+	// the histories of the tight-memory world first: they run in child processes while this process runs the others
 	var memCases []c19MemCase
+	err = ReadLines(r.Emitted, func(line []byte) error {
+		var g genLine
+		if err := json.Unmarshal(line, &g); err != nil {
+			return err
+		}
+		hk := g.Home + g.Mem + fmt.Sprint(g.H)
+		if g.Mem != "tight" || seen[hk] {
+			return nil
+		}
+		seen[hk] = true
+		for _, ck := range c19HugeKinds {
+			memCases = append(memCases, c19MemCase{Last: g.H[len(g.H)-1][0], Kind: ck.name, Inputs: c19Inputs(g.H, ck), Slack: c19MemSlack(ck)})
+		}
+		return nil
+	})
+	if err != nil {
+		c.Infra(err)
+		return
+	}
+	memDone := make(chan error, 1)
+	scratch := c.Scratch()
+	go func() { memDone <- c19MemRun(scratch, memCases) }() // (child processes: nothing of grol runs in this goroutine)
+	defer func() {
+		if err := <-memDone; err != nil {
+			c.Infra(err)
+			return
+		}
+		c19MemJudge(c, memCases)
+	}()
 	failSessions, failHit, failMissed := 0, 0, 0
 	err = ReadLines(r.Emitted, func(line []byte) error {
-		var g struct {
-			H    [][2]string `json:"h"`
-			Home string      `json:"home"`
-			Mem  string      `json:"mem"`
-		}
+		var g genLine
 		if err := json.Unmarshal(line, &g); err != nil {
 			return err
 		}
@@ -332,18 +381,13 @@ func checkC19(c *Ctx) {
 		hh := fnv.New32a()
 		_, _ = hh.Write([]byte(hk))
 		hsh := int(hh.Sum32()>>3) + int(c.Seed)
-		if !c.Thorough() && strings.Contains(hk, "fail-deadline") && hsh%4 != 0 {
-			return nil // (a deadline costs milliseconds: quick takes one in four of the histories with one, by a hash of history and seed)
-		}
-		if g.Mem == "tight" { // a huge array under a memory budget without room for a second copy: run in a child, judged below
-			for _, ck := range c19HugeKinds {
-				memCases = append(memCases, c19MemCase{Last: last, Kind: ck.name, Inputs: c19Inputs(g.H, ck), Slack: c19MemSlack(ck)})
-			}
-			return nil
+		sampled := !c.Thorough() || len(g.H) == 3 // (thorough: every history of up to two steps in full)
+		if sampled && strings.Contains(hk, "fail-deadline") && hsh%4 != 0 {
+			return nil // (a deadline costs milliseconds: one in four of the histories with one, by a hash of history and seed)
 		}
 		kinds := constKinds
 		hasFail := c19HasFail(g.H)
-		if hasFail && !c.Thorough() {
+		if hasFail && sampled {
 			// a failing input does not look at the constant: two of the value kinds per history (chosen by a hash of the
 			// history and the seed), not all twelve
 			k := hsh / 4
@@ -402,16 +446,6 @@ func checkC19(c *Ctx) {
 		return
 	}
 	c.Cov("failing_inputs", fmt.Sprintf("%d of %d failed inside their call", failHit, failSessions))
-	memDone := make(chan error, 1)
-	scratch := c.Scratch()
-	go func() { memDone <- c19MemRun(scratch, memCases) }() // (child processes: nothing of grol runs in this goroutine)
-	defer func() {
-		if err := <-memDone; err != nil {
-			c.Infra(err)
-			return
-		}
-		c19MemJudge(c, memCases)
-	}()
 	c.Cov("histories", len(seen))
 	// a constant bound for the first time from an integer loop variable / parameter (a register): once bound, every later
 	// evaluation - later iterations, after ++ of the parameter, after other loops reused the register - gives the same value
